@@ -348,6 +348,9 @@ def pinned_engine(prog, sess_factory, c):
             data = Seq("list", dl, lambda i: Opq(T.F(sf + I(i))), 12345)
             me = ctx.make_self(eng, P, f, n, n, data=data)
             eng.st.ghost["cur"] = n
+            # the CPython side feeds the non-empty string "f<n>": a truthy frame
+            from .engine import _TRUTHY
+            eng.assume(_TRUTHY(T.F(n)))
             if c["post"]:
                 res = eng.run_function(ctx.fi["_post_process"], [], {}, me)
             else:
